@@ -6,6 +6,14 @@ use super::*;
 #[path = "/verif/kani/draw.rs"]
 mod draw;
 
+#[cfg(not(kani))]
+#[path = "/verif/kani/net_sim.rs"]
+mod sim;
+#[cfg(not(kani))]
+fn is_connecting(c: &Connection) -> bool {
+    matches!(c.state, State::Connecting)
+}
+
 const M: u16 = 1 << 10;
 
 /// contract Sequence::compare(self, other), requires both < 1024:
@@ -98,4 +106,13 @@ pub mod proofs {
         draw::reached();
         contract_window(n, k);
     });
+    // ---- sampled (native PRNG driver only; never counted as proved): two endpoints and a lossy network ----
+    #[cfg(not(kani))]
+    harness!(sampled_conn_two_endpoints_v6, unwind = 1, {
+        let ops = super::sim::draw_ops(60);
+        let settle = draw::usize_le(3) != 0;
+        draw::reached();
+        super::sim::simulate(&ops, settle);
+    });
+
 }
